@@ -209,6 +209,13 @@ def extract(src_text, spec):
         meta["outlined"].append(dict(name=o["name"], args=o["args"], ret=o["ret"], rhs=rhs, stmt=stmt,
                                      requires=o.get("requires", []), ensures=o.get("ensures", [])))
         meta["edits"].append("outlined statement `%s;` as %s" % (re.sub(r"\s+", " ", stmt), o["name"]))
+    # (g) optional: compound assignment on plain identifiers spelled out (x op= e;  ->  x = x op (e);)
+    if spec.get("expand_opassign"):
+        def _exp(m):
+            return "%s%s = %s %s (%s);" % (m.group(1), m.group(2), m.group(2), m.group(3), m.group(4).strip())
+        body, n = re.subn(r"(^|[\s{;])([A-Za-z_][A-Za-z0-9_]*)\s*([-+*/])=\s*([^;]+);", _exp, body)
+        if n:
+            meta["edits"].append("%d compound assignment(s) spelled out (x op= e -> x = x op (e))" % n)
     # (d) Self::
     body = re.sub(r"\bSelf::", "", body)
     sig = re.sub(r"\bSelf::", "", sig)
@@ -303,7 +310,7 @@ def fn_spans(text):
 
 def classify(vob, text, meta, rc, out, secs):
     items = []
-    mj = re.search(r"\n\{\n  \"", out)
+    mj = re.search(r"(?m)^\{\n  \"", out)
     data = None
     if mj:
         try:
@@ -367,6 +374,8 @@ def classify(vob, text, meta, rc, out, secs):
                               secs=0, clause="reachability of precondition"))
     # unexpected failures in functions that are not obligations and not vacuity guards (lemmas)
     for name in failed:
+        if vob.get("ignore_other_failures"):
+            continue
         if name not in vob["obligations"] and name not in expect_fail:
             items.append(dict(name=name, status="undecided", detail="lemma failed: " + failed[name][0][:300], secs=0,
                               clause="supporting lemma"))
